@@ -12,3 +12,5 @@ import SkyllhModel.Props.C04
 import SkyllhModel.Props.C10
 import SkyllhModel.Props.C19
 import SkyllhModel.Props.C05
+import SkyllhModel.Props.C01
+import SkyllhModel.Props.C03
